@@ -26,7 +26,7 @@ impl Deserialize for Credentials {
                 cbor_event::Len::Len(n) => counter < n,
                 cbor_event::Len::Indefinite => true,
             } {
-                if is_break_tag(raw, "Credentials")? {
+                if is_break_tag(raw, &len, "Credentials")? {
                     break;
                 }
                 creds.add_move(Credential::deserialize(raw)?);
